@@ -215,6 +215,9 @@ pub fn finish(ctx: &Ctx, level: &str, out: Outcome) -> i32 {
         let n = seen_sig.entry(v.signature.clone()).or_insert(0);
         *n += 1;
         if *n > 1 {
+            if *n <= 3 {
+                println!("  also ({}): {}", v.signature, v.detail);
+            }
             continue;
         }
         let h = hash64(&(v.signature.clone(), v.replay.to_string()));
